@@ -15,7 +15,7 @@ EXPLANATION = (
     'guarded by an RAII object whose destructor re-installs the constructor\'s shift, so the operator is as it was on every '
     'exit, including exceptional ones; (D3) in the SVD wrapper a field cached from an accessor of the inner solver is '
     'invalidated by every member that runs the inner solver; (D4) every mutable cache of an operator adaptor is overwritten '
-    'before it is read in each member (no state carried between applications). Does NOT decide bit-identity of floating-point '
+    'before it is read in each member (no state carried between applications); (D5) every decomposition and shift operator that is recomputed on one object (BKLDLT, the QR / Schur / eigen helpers, set_shift of the seven shift operators) overwrites as a whole every field it reads or appends to, apart from tabulated element-wise-filled buffers, so a second factorization does not see the first. Does NOT decide bit-identity of floating-point '
     'results for equal state (Eigen kernels are assumed deterministic).')
 ASSUMPTIONS = ['an operator application perform_op(x, y) overwrites all of y (operator contract)',
                'Eigen kernels are deterministic functions of their inputs (no OpenMP in the build)']
@@ -414,8 +414,83 @@ def caches_stateless(ctx, rule='mutable-cache-overwritten-before-read'):
         raise AnalysisBroken('only %d cache uses analysed' % n)
 
 
+# D5: components that are (re)computed many times on one object -- decompositions inside the solver and the shift operators,
+# whose set_shift() is called by every solver constructed on them.  (class template, member) -> {(owner template, field): reason}
+# for state the member may read before having overwritten it as a whole; everything else it reads must be a constant or
+# killed first.  Confirmed by reading; each reason names the local argument why no earlier value is observable.
+RECOMPUTED = {
+    ('Spectra::BKLDLT', 'compute'): {
+        ('Spectra::BKLDLT', 'm_data'): 'resized, then copy_data() writes every entry of the packed triangle before the first read (C10 copy rules)'},
+    ('Spectra::UpperHessenbergQR', 'compute'): {},
+    ('Spectra::TridiagQR', 'compute'): {
+        ('Spectra::UpperHessenbergQR', 'm_rot_cos'): 'resized to n-1; entry i is written through the walking pointer in step i before any read (C08 pointer-walk rule)',
+        ('Spectra::UpperHessenbergQR', 'm_rot_sin'): 'as m_rot_cos'},
+    ('Spectra::DoubleShiftQR', 'compute'): {
+        ('Spectra::DoubleShiftQR', 'm_ref_u'): 'resized; column ind is written by compute_reflector(ind) before apply_PX / apply_XP(ind) read it',
+        ('Spectra::DoubleShiftQR', 'm_ref_nr'): 'as m_ref_u'},
+    ('Spectra::TridiagEigen', 'compute'): {},
+    ('Spectra::UpperHessenbergSchur', 'compute'): {},
+    ('Spectra::UpperHessenbergEigen', 'compute'): {
+        ('Spectra::UpperHessenbergEigen', 'm_matT'): 'swapped with the Schur factor just recomputed (m_schur.m_T is must-killed first; checked)',
+        ('Spectra::UpperHessenbergEigen', 'm_eivec'): 'swapped with the Schur vectors just recomputed (m_schur.m_U is must-killed first; checked)',
+        ('Spectra::UpperHessenbergEigen', 'm_eivalues'): 'resized to n; entries i (and i+1 for a pair) are written for every i by the block scan'},
+    ('Spectra::DenseSymShiftSolve', 'set_shift'): {
+        ('Spectra::BKLDLT', 'm_data'): 'see BKLDLT::compute'},
+    ('Spectra::SparseSymShiftSolve', 'set_shift'): {
+        ('Spectra::SparseSymShiftSolve', 'm_solver'): 'Eigen decomposition object: compute() replaces the stored factorization'},
+    ('Spectra::DenseGenRealShiftSolve', 'set_shift'): {
+        ('Spectra::DenseGenRealShiftSolve', 'm_solver'): 'Eigen decomposition object: compute() replaces the stored factorization'},
+    ('Spectra::DenseGenComplexShiftSolve', 'set_shift'): {
+        ('Spectra::DenseGenComplexShiftSolve', 'm_solver'): 'Eigen decomposition object: compute() replaces the stored factorization'},
+    ('Spectra::SparseGenRealShiftSolve', 'set_shift'): {
+        ('Spectra::SparseGenRealShiftSolve', 'm_solver'): 'Eigen decomposition object: compute() replaces the stored factorization'},
+    ('Spectra::SparseGenComplexShiftSolve', 'set_shift'): {
+        ('Spectra::SparseGenComplexShiftSolve', 'm_solver'): 'Eigen decomposition object: compute() replaces the stored factorization'},
+    ('Spectra::SymShiftInvert', 'set_shift'): {
+        ('Spectra::SymShiftInvert', 'm_solver'): 'handed to the factorization helper, which calls compute() on it (BKLDLT::compute is itself a checked component; Eigen::SparseLU replaces its factorization)'},
+}
+# fields whose whole-object kill in the member is REQUIRED (deleting the reset leaves state of the previous factorization behind)
+RECOMPUTE_MUST_KILL = {
+    ('Spectra::BKLDLT', 'compute'): ['m_perm', 'm_permc', 'm_colptr', 'm_n', 'm_info', 'm_computed'],
+    ('Spectra::UpperHessenbergEigen', 'compute'): ['m_schur.m_T', 'm_schur.m_U', 'm_n'],
+}
+
+
+def recompute_complete(ctx, rule='recompute-rebuilds-what-it-reads'):
+    D = DefUse(ctx)
+    n = 0
+    for (tq, meth), allowed in sorted(RECOMPUTED.items()):
+        fns = [f for f in ctx.F.insts(tq + '::' + meth) if f.cfg]
+        if not fns:
+            raise AnalysisBroken('%s::%s is not instantiated' % (tq, meth))
+        for fn in fns:
+            ue, mk = D.summary(fn)
+            bad, exc = [], []
+            for p in sorted(ue):
+                if not p:
+                    continue
+                c = classify_path(ctx.F, fn.record, p)
+                if c in ('const', 'through-reference', 'object', 'const-binding'):
+                    continue
+                if isinstance(c, tuple) and (c[1], c[2]) in allowed:
+                    exc.append('.'.join(p))
+                    continue
+                bad.append('.'.join(p) + ('' if c != 'unknown' else ' (unresolved)'))
+            for need in RECOMPUTE_MUST_KILL.get((tq, meth), []):
+                if not covered(tuple(need.split('.')), mk):
+                    bad.append('%s (not overwritten as a whole on every normal path)' % need)
+            n += 1
+            ctx.check(not bad, rule, '%s::%s' % (tq.replace('Spectra::', ''), meth), fn.qname,
+                      'reads before writing only constants and %d tabulated buffers %s; %d fields overwritten as a whole' % (len(exc), exc, len(mk)) if not bad else
+                      '%s() may read / append to %s before overwriting it: state of the previous %s on the same object leaks into this one' %
+                      (meth, ', '.join(sorted(set(bad))), 'factorization' if meth != 'set_shift' else 'shift'))
+    if n < 20:
+        raise AnalysisBroken('only %d re-computable members analysed' % n)
+
+
 def run(ctx):
     n = reinit_complete(ctx)
+    recompute_complete(ctx)
     basis_prefix_discipline(ctx)
     operator_mutation(ctx)
     svd_cache(ctx)
